@@ -49,6 +49,21 @@ LinksConsistent(rec) == \A n \in Range(rec.nodes) :
                            InOracle(rec, n.tkey) => Matches(rec, n, OracleOf(rec, n.tkey))
 SourceOrder(rec) == rec.obsSource = rec.source
 
+(* the same, by POSITION: starting from every registered (node, type) pair and following the links of the node and of
+   the Go type in parallel, every pair met on the way must match - also when the node cannot say itself which type
+   it stands for (a placeholder left in a cycle has no key and no element: its own Type() fails)                    *)
+Step(rec, S) ==
+    S \cup UNION {
+        LET n == NodeOf(rec, p[1])  o == OracleOf(rec, p[2]) IN
+        IF Len(n.children) # Len(o.children) THEN {}
+        ELSE {<<n.children[i], o.children[i]>> : i \in 1..Len(o.children)}
+      : p \in {q \in S : HasNode(rec, q[1]) /\ InOracle(rec, q[2])} }
+RECURSIVE Reach(_, _)
+Reach(rec, S) == LET T == Step(rec, S) IN IF T = S THEN S ELSE Reach(rec, T)
+Positions(rec) == Reach(rec, {<<t.node, t.key>> : t \in {x \in Range(rec.types) : InOracle(rec, x.key)}})
+BadPositions(rec) == {p \in Positions(rec) : ~(HasNode(rec, p[1]) /\ InOracle(rec, p[2]) /\ Matches(rec, NodeOf(rec, p[1]), OracleOf(rec, p[2])))}
+PositionsConsistent(rec) == BadPositions(rec) = {}
+
 Missing(rec) == {o.key : o \in {x \in Range(rec.oracle) : x.reg /\ ~\E t \in Range(rec.types) : t.key = x.key}}
 Unfaithful(rec) == {t.key : t \in {x \in Range(rec.types) :
                        InOracle(rec, x.key) /\ ~(HasNode(rec, x.node) /\ Matches(rec, NodeOf(rec, x.node), OracleOf(rec, x.key)))}}
@@ -61,6 +76,7 @@ FinalVerdict(rec) ==
     ELSE IF ~Faithful(rec) THEN "a registered node does not describe the Go type it is registered for (kind, length, key/element, basic kind, fields): " \o One(Unfaithful(rec))
     ELSE IF ~RoundTrip(rec) THEN "converting a node back to a Go type does not give the type it was built from: " \o One(NotIdentical(rec))
     ELSE IF ~LinksConsistent(rec) THEN "a node reached through links does not describe the Go type at that position: " \o One(BadLinks(rec))
+    ELSE IF ~PositionsConsistent(rec) THEN "a node reached through links does not describe the Go type at that position: " \o One(BadPositions(rec))[2]
     ELSE IF ~SourceOrder(rec) THEN "source declarations not reported in source order"
     ELSE ""
 =============================================================================
